@@ -100,7 +100,7 @@ ParseHunks(toks, trunc, i, acc) ==
 
 -----------------------------------------------------------------------------
 (* metadata and build_filepatch *)
-EmptyMeta == [old |-> NONE, new |-> NONE, renF |-> FALSE, renT |-> FALSE,
+EmptyMeta == [old |-> NONE, new |-> NONE, renF |-> FALSE, renT |-> FALSE, newF |-> FALSE, delF |-> FALSE,
               operm |-> NONE, nperm |-> NONE, ohash |-> NONE, nhash |-> NONE]
 HaveName(m) == m.old # NONE \/ m.new # NONE
 Real(n) == n # NONE /\ n # NULL
@@ -112,15 +112,25 @@ RecognizeKind(hunks) ==
        ELSE "M"
   ELSE "M"
 
+\* git's creation / deletion of a zero-length file: "new file mode" / "deleted file mode" and no hunk
+\* (or one without lines); it becomes a creation / deletion with one empty hunk and /dev/null on the other side
+EmptyHunk == [os |-> 0, ns |-> 0, old |-> <<>>, new |-> <<>>, pre |-> 0, suf |-> 0]
+AboutEmptyFile(m, hunks) == /\ (m.newF \/ m.delF) /\ ~(m.renF /\ m.renT)
+                            /\ (hunks = <<>> \/ (Len(hunks) = 1 /\ hunks[1].old = <<>> /\ hunks[1].new = <<>>))
+Adjusted(m, hunks) == IF ~AboutEmptyFile(m, hunks) THEN m
+                      ELSE IF m.newF THEN [m EXCEPT !.old = NULL] ELSE [m EXCEPT !.new = NULL]
+
 \* build_filepatch returns None if necessary metadata is missing
-CanBuild(m) == LET ren == m.renF /\ m.renT IN
+CanBuild(m0, hunks) == LET m == Adjusted(m0, hunks)  ren == m.renF /\ m.renT IN
                IF ren THEN Real(m.old) /\ Real(m.new) ELSE Real(m.old) \/ Real(m.new)
-Build(m, hunks) ==
-  [kind |-> RecognizeKind(hunks),
-   old |-> IF Real(m.old) THEN m.old ELSE NULL,
-   new |-> IF Real(m.new) THEN m.new ELSE NULL,
-   ren |-> m.renF /\ m.renT, operm |-> m.operm, nperm |-> m.nperm, ohash |-> m.ohash, nhash |-> m.nhash,
-   hunks |-> hunks]
+Build(m0, hunks0) ==
+  LET m == Adjusted(m0, hunks0)
+      hunks == IF AboutEmptyFile(m0, hunks0) /\ hunks0 = <<>> THEN <<EmptyHunk>> ELSE hunks0
+  IN [kind |-> IF AboutEmptyFile(m0, hunks0) THEN (IF m0.newF THEN "C" ELSE "D") ELSE RecognizeKind(hunks),
+      old |-> IF Real(m.old) THEN m.old ELSE NULL,
+      new |-> IF Real(m.new) THEN m.new ELSE NULL,
+      ren |-> m.renF /\ m.renT, operm |-> m.operm, nperm |-> m.nperm, ohash |-> m.ohash, nhash |-> m.nhash,
+      hunks |-> hunks]
 
 GitMeta == {"index", "oldmode", "newmode", "delmode", "newfilemode", "renfrom", "rento", "copyfrom", "copyto", "binary"}
 
@@ -129,7 +139,7 @@ RECURSIVE MetaLoop(_, _, _, _, _, _)
 MetaLoop(toks, trunc, i, git, ext, m) ==
   IF i > Len(toks) THEN
      \* EndOfPatch
-     IF ext THEN (IF ~CanBuild(m) THEN [r |-> "err", err |-> "MissingFilenameForHunk"]
+     IF ext THEN (IF ~CanBuild(m, <<>>) THEN [r |-> "err", err |-> "MissingFilenameForHunk"]
                   ELSE [r |-> "fp", next |-> i, fp |-> Build(m, <<>>)])
      ELSE [r |-> "end"]
   ELSE LET t == toks[i] IN
@@ -137,11 +147,11 @@ MetaLoop(toks, trunc, i, git, ext, m) ==
      \* leave the metadata loop: read the hunks
      LET hs == ParseHunks(toks, trunc, i, <<>>) IN
      IF ~hs.ok THEN [r |-> "err", err |-> hs.err]
-     ELSE IF ~CanBuild(m) THEN [r |-> "err", err |-> "MissingFilenameForHunk"]
+     ELSE IF ~CanBuild(m, hs.hunks) THEN [r |-> "err", err |-> "MissingFilenameForHunk"]
      ELSE [r |-> "fp", next |-> hs.next, fp |-> Build(m, hs.hunks)]
   ELSE IF trunc /\ i = Len(toks) THEN [r |-> "err", err |-> "UnexpectedEndOfFile"]
   ELSE IF t.k = "git" THEN
-     IF ext /\ CanBuild(m) THEN [r |-> "fp", next |-> i, fp |-> Build(m, <<>>)]   \* not consumed
+     IF ext /\ CanBuild(m, <<>>) THEN [r |-> "fp", next |-> i, fp |-> Build(m, <<>>)]   \* not consumed
      ELSE MetaLoop(toks, trunc, i + 1, TRUE, ext, [EmptyMeta EXCEPT !.old = t.o, !.new = t.n])
   ELSE IF t.k = "minus" THEN MetaLoop(toks, trunc, i + 1, git, ext, [m EXCEPT !.old = t.n])
   ELSE IF t.k = "plus"  THEN MetaLoop(toks, trunc, i + 1, git, ext, [m EXCEPT !.new = t.n])
@@ -151,8 +161,10 @@ MetaLoop(toks, trunc, i, git, ext, m) ==
             CASE t.k = "index"       -> [m EXCEPT !.ohash = t.o, !.nhash = t.n]
               [] t.k = "renfrom"     -> [m EXCEPT !.renF = TRUE]
               [] t.k = "rento"       -> [m EXCEPT !.renT = TRUE]
-              [] t.k \in {"oldmode", "delmode"}     -> [m EXCEPT !.operm = t.m]
-              [] t.k \in {"newmode", "newfilemode"} -> [m EXCEPT !.nperm = t.m]
+              [] t.k = "oldmode"     -> [m EXCEPT !.operm = t.m]
+              [] t.k = "delmode"     -> [m EXCEPT !.operm = t.m, !.delF = TRUE]
+              [] t.k = "newmode"     -> [m EXCEPT !.nperm = t.m]
+              [] t.k = "newfilemode" -> [m EXCEPT !.nperm = t.m, !.newF = TRUE]
               [] OTHER               -> m)
   ELSE MetaLoop(toks, trunc, i + 1, git, ext, m)         \* garbage
 
